@@ -42,6 +42,32 @@ pub trait CurveTag: AffineRepr + 'static {
     /// the other curve point with the same x-coordinate (−P on the Weierstrass curves, (x, −y)
     /// on the twisted Edwards curve); None for points of order ≤ 2 and the identity
     fn same_x_other_y(p: &Self) -> Option<Self>;
+    /// a different point *object* that is not on the curve but has the same compressed encoding
+    /// as `p` (same x, another y of the same sign class); None where the encoding leaves no room
+    fn off_curve_twin(p: &Self) -> Option<Self>;
+}
+
+fn sw_twin<P: ark_ec::short_weierstrass::SWCurveConfig>(p: &ark_ec::short_weierstrass::Affine<P>) -> Option<ark_ec::short_weierstrass::Affine<P>> {
+    use ark_ff::One;
+    use ark_serialize::CanonicalSerialize;
+    use ark_std::Zero;
+    if p.infinity {
+        return None;
+    }
+    let mut want = vec![];
+    p.serialize_compressed(&mut want).ok()?;
+    for k in 1u64..20 {
+        let mut y = p.y;
+        for _ in 0..k {
+            y += <P::BaseField as One>::one();
+        }
+        let q = ark_ec::short_weierstrass::Affine::<P>::new_unchecked(p.x, y);
+        let mut got = vec![];
+        if q.serialize_compressed(&mut got).is_ok() && got == want && !q.is_on_curve() && y != p.y && !y.is_zero() {
+            return Some(q);
+        }
+    }
+    None
 }
 
 fn sw_mirror<G: AffineRepr>(p: &G) -> Option<G> {
@@ -63,6 +89,9 @@ impl CurveTag for SecqG {
     fn same_x_other_y(p: &Self) -> Option<Self> {
         sw_mirror(p)
     }
+    fn off_curve_twin(p: &Self) -> Option<Self> {
+        sw_twin(p)
+    }
 }
 impl CurveTag for ZorroG {
     const CURVE: Curve = Curve::Zorro;
@@ -72,6 +101,9 @@ impl CurveTag for ZorroG {
     const COFACTOR: u64 = 1;
     fn same_x_other_y(p: &Self) -> Option<Self> {
         sw_mirror(p)
+    }
+    fn off_curve_twin(p: &Self) -> Option<Self> {
+        sw_twin(p)
     }
 }
 impl CurveTag for EdG {
@@ -90,6 +122,22 @@ impl CurveTag for EdG {
         } else {
             None
         }
+    }
+    fn off_curve_twin(p: &Self) -> Option<Self> {
+        // the compressed form is y and the sign of x: another x of the same sign
+        use ark_serialize::CanonicalSerialize;
+        let mut want = vec![];
+        p.serialize_compressed(&mut want).ok()?;
+        let mut x = p.x;
+        for _ in 0..20 {
+            x += <ark_curve25519::Fq as ark_ff::One>::one();
+            let q = EdG::new_unchecked(x, p.y);
+            let mut got = vec![];
+            if q.serialize_compressed(&mut got).is_ok() && got == want && !q.is_on_curve() {
+                return Some(q);
+            }
+        }
+        None
     }
 }
 
